@@ -6,6 +6,9 @@ From Coq Require Import ZifyBool ZifyN ZifyNat Sorting.Sorted Sorting.Permutatio
 Lemma existsb_map {A B} (f : B -> bool) (g : A -> B) l : existsb f (map g l) = existsb (fun x => f (g x)) l.
 Proof. induction l as [|x t IH]; cbn [map existsb]; congruence. Qed.
 
+Lemma Ok_inj {A} (a b : A) : Ok a = Ok b -> a = b.
+Proof. intros H. injection H. auto. Qed.
+
 Section Built.
   Variable hash : list N -> list N -> N.
   Variable sort : list N -> list N.
@@ -50,9 +53,10 @@ Section Built.
     change (N.shiftl 1 32) with two32.
     destruct (N.leb_spec two32 (N.of_nat (length data))) as [|Hn]; [discriminate|].
     destruct (N.ltb_spec 32 P) as [|HP]; [discriminate|].
-    destruct (N.eqb_spec (N.of_nat (length data)) 0) as [E0|NE]; intros H; inversion H; subst f; clear H;
-      cbn [f_n f_p f_mod f_data]; repeat split; try assumption.
-    - destruct data; [|discriminate]. unfold values_of. cbn [map]. rewrite sort_nil. reflexivity.
+    destruct (N.of_nat (length data) =? 0) eqn:E0; intros H; apply Ok_inj in H; subst f;
+      cbn [f_n f_p f_mod f_data];
+      (split; [exact HP | split; [exact Hn | split; [reflexivity | split; [reflexivity | split; [reflexivity|]]]]]).
+    - apply N.eqb_eq in E0. destruct data; [|discriminate]. unfold values_of. cbn [map]. rewrite sort_nil. reflexivity.
     - reflexivity.
   Qed.
 
@@ -84,7 +88,8 @@ Section Built.
     Proof.
       destruct (build_inv _ _ _ _ _ Hbuild) as (HP & Hn & En & Ep & Em & Ed).
       destruct (pack_bits (encode P 0 vals)) as (k & _ & Ek).
-      exists k. rewrite Ep, Ed. fold vals. rewrite Ek. repeat split; try assumption.
+      exists k. rewrite Ep, Ed. fold vals. rewrite Ek.
+      split; [reflexivity | split; [exact HP | split; [| split]]].
       - apply values_chain. apply built_mod_lt.
       - rewrite En. unfold vals, values_of. rewrite sort_length, map_length. reflexivity.
       - rewrite <- Ek. rewrite bits_of_bytes_length. unfold fuel_of. rewrite Ed. fold vals. lia.
@@ -198,3 +203,70 @@ Section Built.
       rewrite (zip_spec _ _ _ _ _ Hb), (hash_spec _ _ _ _ _ Hb), (match_any_spec _ _ _ _ _ Hb), E. auto.
   Qed.
 End Built.
+
+(* ---------- packaged forms (what Props/C13.v states) ---------- *)
+Definition hash_ok (hash : list N -> list N -> N) : Prop := forall k d, hash k d < two64.
+Definition sort_ok (sort : list N -> list N) : Prop :=
+  (forall l, Sorted N.le (sort l)) /\ (forall l, Permutation l (sort l)).
+
+Theorem member_matches_all hash sort : hash_ok hash -> sort_ok sort ->
+  forall P M key data f, build hash sort P M key data = Ok f ->
+  forall d, In d data ->
+    gmatch hash f key d = Ok true /\
+    forall qs, In d qs ->
+      zip_match_any hash sort f key qs = Ok true /\
+      hash_match_any hash f key qs = Ok true /\
+      match_any hash sort f key qs = Ok true.
+Proof. intros Hh [Hs Hp] P M key data f Hb. exact (member_matches hash sort Hh Hs Hp P M key data f Hb). Qed.
+
+Theorem empty_filter_none_all hash sort : hash_ok hash -> sort_ok sort ->
+  forall P M key f, build hash sort P M key [] = Ok f ->
+    (forall q, gmatch hash f key q = Ok false) /\
+    (forall qs, zip_match_any hash sort f key qs = Ok false /\
+                hash_match_any hash f key qs = Ok false /\
+                match_any hash sort f key qs = Ok false).
+Proof. intros Hh [Hs Hp]. exact (empty_filter_none hash sort Hh Hs Hp). Qed.
+
+Theorem strategies_agree_all hash sort : hash_ok hash -> sort_ok sort ->
+  forall P M key data f, build hash sort P M key data = Ok f ->
+  forall qs,
+    let some_item := exists q, In q qs /\ gmatch hash f key q = Ok true in
+    (zip_match_any hash sort f key qs = Ok true <-> some_item) /\
+    (hash_match_any hash f key qs = Ok true <-> some_item) /\
+    (match_any hash sort f key qs = Ok true <-> some_item).
+Proof. intros Hh [Hs Hp] P M key data f Hb. exact (strategies_agree_iff hash sort Hh Hs Hp P M key data f Hb). Qed.
+
+(* the boolean form: the three any-of answers are Ok of the same boolean, never an error *)
+Theorem strategies_agree_bool hash sort : hash_ok hash -> sort_ok sort ->
+  forall P M key data f, build hash sort P M key data = Ok f ->
+  forall qs,
+    let b := existsb (fun q => match gmatch hash f key q with Ok true => true | _ => false end) qs in
+    zip_match_any hash sort f key qs = Ok b /\
+    hash_match_any hash f key qs = Ok b /\
+    match_any hash sort f key qs = Ok b.
+Proof. intros Hh [Hs Hp] P M key data f Hb. exact (strategies_agree hash sort Hh Hs Hp P M key data f Hb). Qed.
+
+(* a single-item query answers membership of the hashed value among the hashed members *)
+Theorem match_exact hash sort : hash_ok hash -> sort_ok sort ->
+  forall P M key data f, build hash sort P M key data = Ok f ->
+  forall q, gmatch hash f key q = Ok true <-> exists d, In d data /\ hashed hash f key d = hashed hash f key q.
+Proof.
+  intros Hh [Hs Hp] P M key data f Hb q.
+  rewrite (match_spec hash sort Hh Hs Hp P M key data f Hb).
+  split.
+  - intros H. apply Ok_inj in H. apply mem_true_iff in H. unfold values_of in H.
+    apply (Permutation_in _ (Permutation_sym (Hp _))) in H. apply in_map_iff in H.
+    destruct H as (d & E & Hin). exists d. auto.
+  - intros (d & Hin & E). f_equal. rewrite <- E.
+    exact (member_value hash sort Hp key data f d Hin).
+Qed.
+
+Theorem build_total hash sort P M key data :
+  P <= 32 -> N.of_nat (length data) < two32 -> exists f, build hash sort P M key data = Ok f.
+Proof.
+  intros HP Hn. unfold build. destruct shift_lits as (-> & -> & _).
+  change (N.shiftl 1 32) with two32.
+  destruct (N.leb_spec two32 (N.of_nat (length data))); [lia|].
+  destruct (N.ltb_spec 32 P); [lia|].
+  destruct (_ =? 0); eexists; reflexivity.
+Qed.
